@@ -172,7 +172,13 @@ var c10KeyFamilies = [][]string{
 	{"col", "col_", "col_1", "col_10", "col_2"}, {"ab", "a_b", "aB", "Ab"}, {"ß", "ss", "SS"}, {"", " "},
 }
 
+var (
+	permMu  sync.Mutex
+	permRng *rand.Rand
+)
+
 func runC10(out io.Writer, seed int64, n int, reps int, reverse bool) {
+	permRng = rand.New(rand.NewSource(seed + 7))
 	enc := json.NewEncoder(out)
 	g := gen.New(seed, pool)
 	sg := &gen.S{G: g}
@@ -212,7 +218,10 @@ func runC10(out io.Writer, seed int64, n int, reps int, reverse bool) {
 				ins := g.Rng.Intn(2) == 0
 				mk := func() builder.SQLWriter {
 					m2 := make(map[string]any, len(m))
-					for _, j := range rand.Perm(len(keys)) {
+					permMu.Lock()
+					perm := permRng.Perm(len(keys))
+					permMu.Unlock()
+					for _, j := range perm {
 						m2[keys[j]] = m[keys[j]]
 					}
 					if ins {
